@@ -187,6 +187,59 @@ fn grammar_pass(thorough: bool) -> (u64, u64, BTreeMap<String, u64>, Vec<Violati
     (programs, with_requests, ends, viol)
 }
 
+/// Reply-shape sweep: every reply of <= n atoms to a numeric, a string and an array-cell
+/// INPUT, against the reference machine (what is stored, REENTER, EXTRA IGNORED).
+fn reply_sweep(thorough: bool) -> (u64, Vec<Violation>) {
+    use crate::c03::*;
+    use crate::refmodel::*;
+    let atoms = ["1", "0", "-", "+", ".", "e", "\"", ",", ":", " ", "x", "\u{e9}", "nan"];
+    let n = if thorough { 5 } else { 4 };
+    let base = atoms.len() as u64;
+    let targets: Vec<LVal> = vec![lv("X"), lv("Y$"), lvi("A", vec![num(2.0)])];
+    let mut count = 0u64;
+    let mut viol = vec![];
+    for len in 0..=n {
+        let c = pow(base, len);
+        count += c * targets.len() as u64;
+        let res: Vec<Violation> = (0..c)
+            .into_par_iter()
+            .flat_map_iter(|i| {
+                let reply: String = decode_seq(i, base, len).iter().map(|k| atoms[*k]).collect();
+                let mut out = vec![];
+                // An empty item next to a separator (",1", "1,", ",,"): whether it counts as an
+                // item is not fixed by the property; such replies are left out.
+                if reply.matches('"').count() >= 3 {
+                    return out.into_iter(); // a stray quote after a closed literal: an empty item again
+                }
+                if reply.contains(|c| c == ',' || c == ':') && reply.split(|c| c == ',' || c == ':').any(|p| p.trim().trim_matches('"').trim().is_empty()) {
+                    return out.into_iter();
+                }
+                for t in &targets {
+                    let mut prog = ProgramAst::new();
+                    prog.insert(10, vec![Stmt::Input(t.clone())]);
+                    prog.insert(20, vec![Stmt::Print(vec![PItem::E(st("<")), PItem::Semi, PItem::E(var("X")), PItem::Semi, PItem::E(var("Y$")), PItem::Semi, PItem::E(call("A", vec![num(2.0)])), PItem::Semi, PItem::E(st(">"))])]);
+                    let replies = vec![reply.clone(), "7".to_string()];
+                    let (mut cap, mut undef) = (false, false);
+                    let (problem, _, _) = compare_script(&prog, &replies, &mut cap, &mut undef);
+                    if let Some((sig, detail)) = problem {
+                        let lines = render_program(&prog);
+                        out.push(Violation {
+                            signature: format!("reply {:?} to {} :: {}", reply, lines[0], sig),
+                            detail,
+                            case: case_program(&lines, &replies, 1),
+                        });
+                    }
+                }
+                out.into_iter()
+            })
+            .collect();
+        if viol.len() < 3000 {
+            viol.extend(res);
+        }
+    }
+    (count, viol)
+}
+
 pub fn run(thorough: bool) -> Report {
     let mut rep = Report::new("C08", "exploration");
     let ctxs = contexts();
@@ -385,6 +438,21 @@ pub fn run(thorough: bool) -> Report {
     if classes.len() < 2 {
         machinery("vacuous: a single outcome class");
     }
+    let (rs, rs_viol) = reply_sweep(thorough);
+    evals += rs;
+    nontrivial += rs;
+    {
+        let mut v = rs_viol;
+        v.sort_by_key(|x| x.signature.len());
+        let total = v.len();
+        for x in v {
+            rep.violating_cases += 1;
+            if rep.violations.len() < 60 {
+                rep.violations.push(x);
+            }
+        }
+        let _ = total;
+    }
     let (gp, gp_req, gp_ends, gp_viol) = grammar_pass(thorough);
     evals += gp;
     nontrivial += gp_req;
@@ -413,6 +481,7 @@ pub fn run(thorough: bool) -> Report {
         "replies": reps.iter().map(|r| r.text).collect::<Vec<_>>(),
         "reenter_prefixes": [0, 1, 2],
         "outcome_classes": classes,
+        "reply_shapes_swept": rs,
         "grammar_pass_runs": gp,
         "grammar_pass_runs_with_reenter_extra_or_open_request": gp_req,
         "grammar_pass_reference_ends": gp_ends,
